@@ -151,6 +151,62 @@ type runner struct {
 	blobs   [][]byte
 	nextDB  int
 	lastLen int64
+	prevTape []byte
+}
+
+// count-limited listings of every directory: Readdir(n) must return at most n entries, all of them
+// members of the full listing; Readdirnames must agree with Readdir
+func (r *runner) limits() []map[string]interface{} {
+	out := []map[string]interface{}{}
+	var rec func(p string, depth int)
+	rec = func(p string, depth int) {
+		if depth > 6 {
+			return
+		}
+		f, err := r.in.s.Open(p)
+		if err != nil {
+			return
+		}
+		all, err := f.Readdir(-1)
+		f.Close()
+		if err != nil {
+			return
+		}
+		full := map[string]bool{}
+		for _, fi := range all {
+			full[fi.Name()] = true
+		}
+		for _, n := range []int{0, 1, 2, 3, len(all), len(all) + 1} {
+			g, err := r.in.s.Open(p)
+			if err != nil {
+				continue
+			}
+			got, err := g.Readdir(n)
+			g.Close()
+			names := []string{}
+			bad := false
+			for _, fi := range got {
+				names = append(names, fi.Name())
+				if !full[fi.Name()] {
+					bad = true
+				}
+			}
+			out = append(out, map[string]interface{}{"dir": p, "n": n, "got": len(got), "total": len(all), "foreign": bad, "err": classify(err)})
+		}
+		g, err := r.in.s.Open(p)
+		if err == nil {
+			names, err := g.Readdirnames(-1)
+			g.Close()
+			out = append(out, map[string]interface{}{"dir": p, "n": -2, "got": len(names), "total": len(all), "foreign": false, "err": classify(err)})
+		}
+		for _, fi := range all {
+			if fi.IsDir() {
+				rec(path.Join(p, fi.Name()), depth+1)
+			}
+		}
+	}
+	rec("/", 0)
+	return out
 }
 
 func (r *runner) blob(i int) []byte {
@@ -514,6 +570,18 @@ func (r *runner) observe(names []string) map[string]interface{} {
 			o["query"] = r.query()
 		case "held":
 			o["held"] = r.in.held
+		case "prefix":
+			// append-only: the previous tape content must be a prefix of the current one
+			b, err := os.ReadFile(r.in.drive)
+			if err != nil {
+				b = nil
+			}
+			ok := len(b) >= len(r.prevTape) && bytes.Equal(b[:len(r.prevTape)], r.prevTape)
+			o["prefix_ok"] = ok
+			o["prev_len"] = len(r.prevTape)
+			r.prevTape = b
+		case "limits":
+			o["limits"] = r.limits()
 		}
 	}
 	return o
